@@ -402,7 +402,19 @@ class Check:
         s0 = ThermocoupleScaling.from_properties(props0, 3)
         y1 = s1.scale(ts.copy())
         mv = self.impl[k].celsius_to_mv(ts.copy())
-        y0 = s0.scale(uvs.copy())
+        uv_arg = uvs.copy()
+        y0 = s0.scale(uv_arg)
+        # the same float64 array scaled again must give the same temperatures (a scaling dividing the caller's
+        # array by 1000 in place is right once and wrong afterwards)
+        y0_again = s0.scale(uv_arg)
+        if y0_again.tobytes() != y0.tobytes():
+            i = int(np.flatnonzero(~((y0_again == y0) | (np.isnan(y0_again) & np.isnan(y0))))[0])
+            self.bad("scale-dir0-again-%s" % k, float("inf"),
+                           "ThermocoupleScaling(type %s, direction 0) applied twice to the same float64 array: first %r, "
+                           "then %r for %r uV - the array passed in was modified" % (k, float(y0[i]), float(y0_again[i]),
+                                                                                float(uvs[i])),
+                           {"op": "point", "type": k, "dir": "scale0", "x": float(uvs[i]).hex()},
+                           expected=float(y0[i]), actual=float(y0_again[i]))
         run.cov["evaluations"] += len(ts) + len(uvs)
         run.count("scaling_points", len(ts) + len(uvs))
         # direction 1: microvolts = 1000 * NIST millivolts
